@@ -18,6 +18,11 @@
 (* The properties of DistributedTree are then evaluated on that state, the *)
 (* "at quiescence" ones on snapshots the recorder flagged quiescent (no    *)
 (* wait_closed() or drain() of a distributed link pending, loop drained).  *)
+(* The recorder sends server messages only while the client's server       *)
+(* reader is free (not inside a ResetDistributed that still awaits its     *)
+(* disconnects), so the effect of a logged server stimulus starts at its   *)
+(* record.  An event no action explains, or a state that breaks a          *)
+(* CONSTRAINT of the .cfg, ends the path: the trace is rejected.           *)
 (*                                                                         *)
 (* Records (JSON; every record has "ev"):                                  *)
 (*   init     peers, files [name, words, mode], friends                    *)
